@@ -56,7 +56,7 @@ Proof.
   split.
   - apply Forall_forall. intros p Hp. apply repeat_spec in Hp. subst p.
     unfold placement_ok. split; [lia|]. split; [lia|]. vm_compute. tauto.
-  - split; [rewrite repeat_length; vm_compute; reflexivity|]. vm_compute. repeat split; reflexivity.
+  - split; [vm_compute; reflexivity|]. vm_compute. repeat split; reflexivity.
 Qed.
 
 Print Assumptions table_exact_now.
